@@ -1082,6 +1082,7 @@ awaitmoredata:
 			if timeDiff > 2*as.readPeriod {
 				fmt.Println("timeDiff in abaco reader", timeDiff)
 			}
+			verifAccess("abaco:lastread", true)
 			as.lastread = lastSampleTime
 
 			if len(as.buffersChan) == cap(as.buffersChan) {
